@@ -487,7 +487,8 @@ def part_b(ctx):
 def norm_panic(msg):
     import re
     head, _, loc = msg.partition(" @ ")
-    loc = loc.split(":")[0].replace("/repo/", "")
+    loc = loc.split(":")[0]
+    loc = loc[loc.find("src/"):] if "src/" in loc else loc
     head = re.sub(r"`[^`]*`", "`…`", head)
     head = re.sub(r"'[^']*'", "'…'", head)
     head = re.sub(r"\d+", "N", head)
